@@ -20,22 +20,23 @@ func init() {
 }
 
 type nbEv struct {
-	Op     string   `json:"op"`
-	Tr     int      `json:"tr"`
-	Sub    string   `json:"sub"`
-	C      int      `json:"c"`
-	E      int      `json:"e"`
-	OK     bool     `json:"ok"`
-	Crash  bool     `json:"crash"`
-	Cls    string   `json:"cls"`
-	Ents   [][]int  `json:"ents"`
-	Found  bool     `json:"found"`
-	PCheck bool     `json:"pcheck"` // the entry is a pipeline that `wtf pipeline <marker>` must list
-	PFound bool     `json:"pfound"`
-	Merged [][]int  `json:"merged"`
-	Main   [][]int  `json:"main"`
-	Args   []string `json:"args,omitempty"`
-	Note   string   `json:"note,omitempty"`
+	Op      string   `json:"op"`
+	Tr      int      `json:"tr"`
+	Sub     string   `json:"sub"`
+	C       int      `json:"c"`
+	E       int      `json:"e"`
+	OK      bool     `json:"ok"`
+	Crash   bool     `json:"crash"`
+	Cls     string   `json:"cls"`
+	Ents    [][]int  `json:"ents"`
+	Found   bool     `json:"found"`
+	WantCls string   `json:"wantcls"` // set: what the driver put there ("missing" | "list" | "garbage")
+	PCheck  bool     `json:"pcheck"`  // the entry is a pipeline that `wtf pipeline <marker>` must list
+	PFound  bool     `json:"pfound"`
+	Merged  [][]int  `json:"merged"`
+	Main    [][]int  `json:"main"`
+	Args    []string `json:"args,omitempty"`
+	Note    string   `json:"note,omitempty"`
 }
 
 type nbDriver struct {
@@ -98,9 +99,13 @@ func (d *nbDriver) newTrace(cls string, ents []database.Command) {
 	os.MkdirAll(filepath.Join(cliHome, "cwd"), 0o755)
 	d.home = cliHome
 	os.MkdirAll(filepath.Dir(d.personal()), 0o755)
+	want := cls
 	switch cls {
 	case "garbage":
 		os.WriteFile(d.personal(), []byte("- command: [unclosed\n\t: : :\n"), 0o644)
+	case "blank": // a notebook without any entry: no bytes at all, comments only, an explicit empty list
+		os.WriteFile(d.personal(), [][]byte{nil, []byte("# my notebook\n# nothing saved yet\n"), []byte("[]\n"), []byte("\n\n")}[d.tr%4], 0o644)
+		want = "list"
 	case "list":
 		writeYAML(d.personal(), ents)
 		// a notebook its owner edits by hand need not look like what the tool writes
@@ -132,7 +137,16 @@ func (d *nbDriver) newTrace(cls string, ents []database.Command) {
 		}
 	}
 	ocls, oents := d.observe()
-	d.w.emit(&nbEv{Op: "set", Tr: d.tr, Cls: ocls, Ents: oents, Merged: [][]int{}, Main: [][]int{}})
+	ev := &nbEv{Op: "set", Tr: d.tr, Cls: ocls, Ents: oents, Merged: [][]int{}, Main: [][]int{}, WantCls: want}
+	if want != "garbage" { // the database used for searching: the main entries followed by the notebook's
+		ev.Main = d.pairs(d.mainDB.Commands)
+		if mdb, err := database.LoadDatabaseWithPersonal(d.mainF, d.personal()); err == nil {
+			ev.Merged = d.pairs(mdb.Commands)
+		} else {
+			ev.Note = "merged load failed: " + err.Error()
+		}
+	}
+	d.w.emit(ev)
 }
 
 type saveReq struct {
@@ -391,7 +405,9 @@ func notebookRandom(args []string) int {
 	defer os.RemoveAll(tmpDir())
 	pick := func() string { return hostileArgs[r.Intn(len(hostileArgs))] }
 	for t := 0; t < *ntr; t++ {
-		switch r.Intn(4) {
+		switch r.Intn(5) {
+		case 4:
+			d.newTrace("blank", nil)
 		case 0:
 			d.newTrace("missing", nil)
 		case 1:
